@@ -53,6 +53,34 @@ func vReadScenarios(path string) []vScenario {
 
 // runSeqStep executes one driver step.  A panic of the real code is recorded as an event (the history ends there:
 // the shard mutex may still be held) - a crash on well-formed requests is a violation of C13.
+// setStatus changes the role of the whole node the way SLock.updateState does (every db gets the new status under
+// all of its shard mutexes), without the quit-leader flush waits.  The event is emitted while the mutexes of the
+// last db are still held: every critical section that starts after the event sees the new role.
+func (w *vWorld) setStatus(status int) {
+	w.slock.glock.Lock()
+	w.slock.state = uint8(status)
+	emitted := false
+	for _, db := range w.slock.dbs {
+		if db != nil {
+			for i := uint16(0); i < db.managerMaxGlocks; i++ {
+				db.managerGlocks[i].LowPriorityLock()
+			}
+			db.status = uint8(status)
+		}
+	}
+	w.tr.Emit(map[string]interface{}{"e": "status", "status": status, "t": w.sec()})
+	emitted = true
+	for _, db := range w.slock.dbs {
+		if db != nil {
+			for i := uint16(0); i < db.managerMaxGlocks; i++ {
+				db.managerGlocks[i].LowPriorityUnlock()
+			}
+		}
+	}
+	_ = emitted
+	w.slock.glock.Unlock()
+}
+
 func (w *vWorld) runSeqStep(nextId *int64, r *vReq, snapEvery bool) {
 	if w.dead {
 		return
@@ -115,20 +143,8 @@ func (w *vWorld) runSeqStep1(nextId *int64, r *vReq, snapEvery bool) {
 	case "status":
 		// role change of the whole node (C10): every db gets the new status under its shard mutexes,
 		// exactly like SLock.updateState but without the quit-leader flush waits.
-		w.slock.glock.Lock()
-		w.slock.state = uint8(r.Status)
-		for _, db := range w.slock.dbs {
-			if db != nil {
-				for i := uint16(0); i < db.managerMaxGlocks; i++ {
-					db.managerGlocks[i].LowPriorityLock()
-				}
-				db.status = uint8(r.Status)
-				for i := uint16(0); i < db.managerMaxGlocks; i++ {
-					db.managerGlocks[i].LowPriorityUnlock()
-				}
-			}
-		}
-		w.slock.glock.Unlock()
+		// the node's own role change (SLock.updateState, including its quit-leader flush waits)
+		w.slock.updateState(uint8(r.Status))
 		w.tr.Emit(map[string]interface{}{"e": "status", "status": r.Status, "t": w.sec()})
 	case "drain":
 		// let every timer fire, then release every remaining hold by its LockId (Rcount=0 removes all depth)
